@@ -207,6 +207,7 @@ Proof.
   { subst body. unfold len in *. rewrite slice_length. lia. }
   destruct (chunk_ctor ty fl body) as [r|] eqn:Ector.
   2:{ now apply (IH _ _ _ Hok H). }
+  destruct (negb (nonempty body) && has_fixed_part ty); [discriminate|].
   destruct r as [c| | |]; cbn [bind] in H; try discriminate.
   destruct (parse_chunks f data (pos + Z.to_nat (cl + padl cl))) as [rest| | |] eqn:Er; cbn [bind] in H;
     try discriminate.
